@@ -374,6 +374,14 @@ def identity(ctx, eff, memos):
                 cleared.add(U(s.value.func.value).split('.')[-1])
             elif isinstance(s, ast.Expr) and isinstance(s.value, ast.Constant):
                 continue
+            elif isinstance(s, ast.For) and isinstance(s.target, ast.Name) and isinstance(s.iter, (ast.Tuple, ast.List)) \
+                    and not s.orelse and all(
+                        isinstance(b, ast.Expr) and isinstance(b.value, ast.Call) and not b.value.args and
+                        isinstance(b.value.func, ast.Attribute) and b.value.func.attr == 'cache_clear' and
+                        U(b.value.func.value) == s.target.id for b in s.body) and s.body:
+                # for m in (self.a, self.b, ..): m.cache_clear()
+                for el in s.iter.elts:
+                    cleared.add(U(el).split('.')[-1])
             else:
                 other.append(s)
         if other:
